@@ -48,6 +48,11 @@ type c09In struct {
 	SelHex string `json:"selhex,omitempty"` // authoritative bytes when the text is not valid UTF-8
 	Ast    []c09ASeg `json:"ast,omitempty"`
 	Stream string `json:"stream"`
+	// Rebind (a registered top-level name, "mix" or "distinct"): the selector's leading function name is replaced by
+	// Rebind in the text given to the real code; that text is evaluated once under the package's own registry, then
+	// Rebind is re-registered as the function the selector names, the same text is evaluated again (this is the
+	// observation) and the registry is restored. `fn=>` applies the function registered when the selector runs.
+	Rebind string `json:"rebind,omitempty"`
 }
 
 func c09IsIdent(s string) bool {
@@ -850,6 +855,22 @@ func (propC09) Generate(r *Rand, tier string) []Case {
 		}
 		out = append(out, c09MkCase(doc, c09PrintSel(ast), ast, "fault", tags))
 	}
+	// re-registration: the name in the selector text is bound to the other built-in between two evaluations
+	for i := 0; i < 40; i++ {
+		doc = g.doc()
+		ast, tags := g.walk(doc, false)
+		if len(ast) == 0 {
+			continue
+		}
+		fn := Pick(r, []string{"mix", "distinct"})
+		other := map[string]string{"mix": "distinct", "distinct": "mix"}[fn]
+		ast[0].Fn = &fn
+		c := c09MkCase(doc, c09PrintSel(ast), ast, "gram", append(tags, "fn:re-registered"))
+		in := c.Input.(c09In)
+		in.Rebind = other
+		c.Input = in
+		out = append(out, c)
+	}
 	for i := 0; i < nRaw; i++ {
 		if i%6 == 0 {
 			doc = g.doc()
@@ -893,7 +914,20 @@ func (propC09) Observe(input json.RawMessage) (Observed, error) {
 		return Observed{}, fmt.Errorf("ast does not print to the selector text: %q vs %q", c09PrintSel(in.Ast), sel)
 	}
 	before := deepCopy(in.Doc)
-	out := c09RunExec(in.Doc, sel)
+	var out c09ExecOut
+	if in.Rebind != "" {
+		builtin := map[string]func(any) (any, error){"mix": genql.Mix, "distinct": genql.Distinct}
+		if len(in.Ast) == 0 || in.Ast[0].Fn == nil || builtin[*in.Ast[0].Fn] == nil || builtin[in.Rebind] == nil || !strings.HasPrefix(sel, *in.Ast[0].Fn+"=>") {
+			return Observed{}, fmt.Errorf("rebind case needs a selector starting with mix=> or distinct=>")
+		}
+		realSel := in.Rebind + strings.TrimPrefix(sel, *in.Ast[0].Fn)
+		c09RunExec(deepCopy(in.Doc), realSel) // compiles (and caches) the selector under the original binding
+		genql.RegisterTopLevelFunction(in.Rebind, builtin[*in.Ast[0].Fn])
+		out = c09RunExec(in.Doc, realSel)
+		genql.RegisterTopLevelFunction(in.Rebind, builtin[in.Rebind])
+	} else {
+		out = c09RunExec(in.Doc, sel)
+	}
 	pure := reflect.DeepEqual(before, in.Doc)
 	parseCoq, parseNote, parseTags := c09RunParse(sel)
 
